@@ -85,7 +85,7 @@ func writeAt(f *mfile, at int, b []byte) {
 	f.data = append(f.data, b[n:]...)
 }
 
-var alphabet = []byte("abcdefghijklmnopqrstuvwxyz0123456789     \n\n\n\x00\xff")
+var alphabet = []byte("abcdefghijklmnopqrstuvwxyz0123456789     \n\n\n\x00\xff\r\r")
 
 func genBytes(rng *core.SplitMix64, n int, lineLen int) []byte {
 	b := make([]byte, n)
@@ -572,7 +572,8 @@ func (e *Engine) Run(t *core.Tape, cfg *core.Config, st *core.Stats) (viol *core
 				before := h.pos
 				switch kind {
 				case 0, 1:
-					n := []int{0, 1, 2, 10, 100, 4095, 4096, 4097, 10000}[t.Choose(9)]
+					// (the last three: a count far beyond any file, as a script passes to mean "the rest")
+					n := []int{0, 1, 2, 10, 100, 4095, 4096, 4097, 10000, 1 << 31, 1 << 40, 1 << 50}[t.Choose(12)]
 					desc = fmt.Sprintf("%s:read(%d) at %d of %d", h.name, n, h.pos, len(h.f.data))
 					code = fmt.Sprintf("return enc(%s:read(%d))", h.name, n)
 					if t.Choose(8) == 0 {
